@@ -145,3 +145,51 @@ Proof.
     try (apply variation_ok; apply H64; lia);
     try (intros z0 E; injection E as <-; apply H64; lia).
 Qed.
+
+(* ---- segments: the same for SegmentBuilder ---- *)
+Definition ok_sbop (o : sbop) : Prop :=
+  match o with
+  | SAddRule ops => wf_segrule (srb_build ops) /\ canon_segrule (srb_build ops) = srb_build ops
+  | SVersion z | SGeneration z => in64 z
+  | _ => True
+  end.
+
+Definition good_seg (g : segment) : Prop := wf_segment g /\ canon_segment g = g.
+
+Lemma good_seg_new key : good_seg (sb_new key).
+Proof.
+  split; [|reflexivity]. unfold wf_segment, sb_new. cbn.
+  refine (conj (Forall_nil _) (conj _ in64o_none)). unfold in64, two63. lia.
+Qed.
+
+Lemma good_seg_apply g o : good_seg g -> ok_sbop o -> good_seg (sb_apply g o).
+Proof.
+  intros [W C] Ho. destruct g as [key inc exc ic ec salt rules unb uk ver gen del pi pe].
+  destruct W as (Wr & Wv & Wg). cbn [sg_rules sg_version sg_generation] in *.
+  unfold canon_segment in C.
+  cbn [sg_key sg_included sg_excluded sg_inc_ctx sg_exc_ctx sg_salt sg_rules sg_unbounded sg_unb_kind sg_version sg_generation sg_deleted] in C.
+  injection C as Ci Ce Cr Cpi Cpe. subst pi pe.
+  assert (Hmk : forall inc' exc' ic' ec' salt' rules' unb' uk' ver' gen',
+            Forall wf_segrule rules' -> in64 ver' -> in64o gen' ->
+            map canon_segtarget ic' = ic' -> map canon_segtarget ec' = ec' -> map canon_segrule rules' = rules' ->
+            good_seg (mksegment key inc' exc' ic' ec' salt' rules' unb' uk' ver' gen' del None None)).
+  { intros. split; [unfold wf_segment; cbn; tauto|]. unfold canon_segment. cbn. congruence. }
+  assert (Hsome : forall z, in64 z -> in64o (Some z)).
+  { intros z Hz z' E. injection E as <-. exact Hz. }
+  destruct o; cbn [sb_apply sg_key sg_included sg_excluded sg_inc_ctx sg_exc_ctx sg_salt sg_rules sg_unbounded sg_unb_kind
+                   sg_version sg_generation sg_deleted sg_pre_inc sg_pre_exc];
+    cbn [ok_sbop] in Ho; apply Hmk; try assumption;
+    try (apply Hsome; exact Ho); try exact Ho;
+    try (apply Forall_app; split; [assumption | constructor; [apply Ho | constructor]]);
+    try (apply map_snoc_fix; [assumption | first [reflexivity | apply Ho]]).
+Qed.
+
+Theorem segment_builder_round_trip key ops : Forall ok_sbop ops ->
+  decode_segment (encode_segment (sb_build key ops)) = Some (sb_build key ops).
+Proof.
+  intro H. assert (G : good_seg (sb_build key ops)).
+  { unfold sb_build. assert (G0 : forall g, good_seg g -> good_seg (fold_left sb_apply ops g)).
+    { induction H as [|o ops Ho H IH]; intros g Gg; cbn [fold_left]; [exact Gg|]. apply IH. apply good_seg_apply; assumption. }
+    apply G0. apply good_seg_new. }
+  destruct G as [W E]. rewrite (decode_encode_segment _ W). rewrite E. reflexivity.
+Qed.
